@@ -36,7 +36,13 @@ pub fn gap_case_ext(ts: u8, ns: u8, hsa: u8, g: u8, newcomer: Option<(u8, usize)
 /// `passive`: addresses inside the GAP at which a passive station (DP slave) answers the status
 /// request with 'slave' - it must neither become successor nor change the sweep.
 #[allow(clippy::too_many_arguments)]
+/// Flag in the `after` component of `newcomer`: the newcomer reports 'master in ring' instead of
+/// 'master ready' (a station that was dropped from the ring without noticing it).
+pub const NEWCOMER_IN_RING: usize = 1 << 20;
+
 pub fn gap_case_full(ts: u8, ns: u8, hsa: u8, g: u8, newcomer: Option<(u8, usize)>, lose_after: Option<usize>, passive: &[u8], obs: &mut Obs) -> CaseResult {
+    let newcomer_state = if newcomer.map(|n| n.1 & NEWCOMER_IN_RING != 0).unwrap_or(false) { 3 } else { 2 };
+    let newcomer = newcomer.map(|(a, after)| (a, after & !NEWCOMER_IN_RING));
     let mut w = World::new(ts, hsa, Baudrate::B1500000, 300, g, None);
     w.step_us = 13;
     let gap0 = gap_set(ts, ns, hsa);
@@ -131,7 +137,7 @@ pub fn gap_case_full(ts: u8, ns: u8, hsa: u8, g: u8, newcomer: Option<(u8, usize
                         pending.push((end + w.bit_us(12), status_resp(ts, da, 0)));
                     } else if newcomer_active && Some(da) == newcomer.map(|n| n.0) && da != cur_ns {
                         // the newcomer answers as a ready master: it must become the successor
-                        pending.push((end + w.bit_us(12), status_resp(ts, da, 2)));
+                        pending.push((end + w.bit_us(12), status_resp(ts, da, newcomer_state)));
                         newcomer_joined_at = Some(visits.len());
                         cur_ns = da;
                     }
@@ -357,10 +363,21 @@ fn status_case(t: &mut Tape, obs: &mut Obs) -> CaseResult {
     let mut wraps = 0usize;
     let (mut notready, mut ready, mut inring, mut foreign) = (0u64, 0u64, 0u64, 0u64);
     let mut stalled = 0u64;
+    let mut restarts = 0u64;
     for _ in 0..steps {
         w.wait_idle(40, &mut ());
         if w.holds_token() || w.state_name() == "CheckTokenPass" {
             break; // the station got / claimed a token: other rules apply
+        }
+        if t.chance(1, 20) {
+            // the station leaves the bus and comes back: it has to listen to two rotations again
+            w.fdl.set_offline();
+            w.step(w.bit_us(50));
+            w.fdl.set_online();
+            clean_passes = 0;
+            wraps = 0;
+            restarts += 1;
+            continue;
         }
         if t.chance(1, 12) {
             // The station is not polled for more than a slot time while a status request for it and
@@ -455,6 +472,9 @@ fn status_case(t: &mut Tape, obs: &mut Obs) -> CaseResult {
     obs.count("replies_in_ring", inring);
     obs.count("foreign_requests_ignored", foreign);
     obs.count("expired_requests_not_answered", stalled);
+    if restarts > 0 {
+        obs.label("left-the-bus-and-came-back");
+    }
     if notready + ready + inring > 0 {
         obs.nontrivial(fingerprint(&(ts, hsa, &ring, notready, ready, inring)));
     }
@@ -485,7 +505,7 @@ pub fn property() -> Property {
         ],
         subchecks: vec![
             SubCheck::index("gap_triples", "all (TS, NS, HSA) triples, two gap factors each", |i, obs| gap_index_case(i, i / 7, obs)),
-            SubCheck::tape("gap_newcomer", "a ready master appears inside the GAP after some visits", |t, obs| {
+            SubCheck::tape("gap_newcomer", "a master that reports to be ready (or, dropped from the ring without having noticed, to be in the ring) appears inside the GAP after some visits", |t, obs| {
                 let hsa = 3 + t.below(30) as u8;
                 let ts = t.below(u64::from(hsa)) as u8;
                 let ns = t.below(u64::from(hsa)) as u8;
@@ -496,9 +516,13 @@ pub fn property() -> Property {
                 }
                 let nc = *t.pick(&gap);
                 let after = t.below((gap.len() + g as usize + 3) as u64) as usize;
-                obs.nontrivial(fingerprint(&(ts, ns, hsa, g, nc, after)));
-                obs.sample(|| json!({"ts": ts, "ns": ns, "hsa": hsa, "gap_factor": g, "newcomer": nc, "appears_after_visits": after}));
-                gap_case(ts, ns, hsa, g, Some((nc, after)), obs)
+                let in_ring = t.chance(1, 3);
+                if in_ring {
+                    obs.label("newcomer-reports-in-ring");
+                }
+                obs.nontrivial(fingerprint(&(ts, ns, hsa, g, nc, after, in_ring)));
+                obs.sample(|| json!({"ts": ts, "ns": ns, "hsa": hsa, "gap_factor": g, "newcomer": nc, "appears_after_visits": after, "reports": if in_ring { "master in ring" } else { "master ready" }}));
+                gap_case(ts, ns, hsa, g, Some((nc, if in_ring { after | NEWCOMER_IN_RING } else { after })), obs)
             }),
             SubCheck::tape("gap_passive", "passive stations (DP slaves) inside the GAP answer the polls with 'slave': same sweep rules, one poll per visit, nobody adopted", |t, obs| {
                 let hsa = 3 + t.below(30) as u8;
